@@ -3,7 +3,7 @@
 import itertools
 from .net import *
 
-PATS = {"P0": [0.0, 1.5, 0.0, 2.0], "P1": [1.0, 2.0, 0.5], "P5": [0.6, 1.4, 1.0, 0.2, 1.8], "PH": [1.0, 0.9, 1.1], "PD": [2.0, 2.0, 0.3, 0.3, 0.3, 0.3]}
+PATS = {"P0": [0.0, 1.5, 0.0, 2.0], "P1": [1.0, 2.0, 0.5], "P5": [0.6, 1.4, 1.0, 0.2, 1.8], "PH": [1.0, 0.9, 1.1], "PD": [2.0, 2.0, 0.3, 0.3, 0.3, 0.3], "PN": [1.5, 0.5]}
 
 
 def skeletons():
@@ -59,7 +59,7 @@ def catalogue(s):
     for n in s["nodes"]:
         nn = n["n"]
         if n["t"] == "junc":
-            for k in ("elev_high", "dem2", "dem0", "demneg", "pat0", "pat1", "pat5", "leak", "leak_window", "nodemand_list"):
+            for k in ("elev_high", "dem2", "dem0", "demneg", "pat0", "pat1", "pat5", "patnw", "leak", "leak_window", "nodemand_list"):
                 D.append({"k": k, "n": nn})
         elif n["t"] == "tank":
             for k in ("near_min", "near_max", "small", "vcurve", "tleak"):
@@ -153,6 +153,13 @@ def apply(s, d):
             if not n["demands"]:
                 return None
             n["demands"] = [[n["demands"][0][0], "P5", "dom"]] + n["demands"][1:]
+        elif k == "patnw":
+            # an additional demand entry on a pattern that does NOT repeat (Pattern(wrap=False), as add_fire_fighting_demand
+            # builds): two periods long, nothing afterwards
+            if not n["demands"]:
+                return None
+            n["demands"] = n["demands"] + [[0.006, "PN", "fire"]]
+            s["nowrap"] = ["PN"]
         elif k == "leak":
             if n.get("leak"):
                 return None
@@ -234,11 +241,11 @@ def compatible(d1, d2):
         ok = {"reverse", "closed", "ctl_toggle"}
         return (d1["k"] in ok or d2["k"] in ok) and d1["k"] != d2["k"] and {d1["k"], d2["k"]} != {"closed", "ctl_toggle"}
     if "n" in d1 and "n" in d2 and d1["n"] == d2["n"]:
-        grp = lambda d: {"dem2": "dA", "dem0": "d", "demneg": "d", "nodemand_list": "d", "pat0": "d", "pat1": "d", "pat5": "d", "leak": "lk",
+        grp = lambda d: {"dem2": "dA", "dem0": "d", "demneg": "d", "nodemand_list": "d", "pat0": "d", "pat1": "d", "pat5": "d", "patnw": "dA", "leak": "lk",
                          "leak_window": "lk", "tleak": "lk", "near_min": "lv", "near_max": "lv"}.get(d["k"], d["k"])
         if grp(d1) == grp(d2):
             return False
-        if {d1["k"], d2["k"]} & {"dem0", "nodemand_list", "demneg"} and {d1["k"], d2["k"]} & {"dem2", "pat0", "pat1", "pat5"}:
+        if {d1["k"], d2["k"]} & {"dem0", "nodemand_list", "demneg"} and {d1["k"], d2["k"]} & {"dem2", "pat0", "pat1", "pat5", "patnw"}:
             return False
         if "as_tank" in (d1["k"], d2["k"]):
             return False
